@@ -280,6 +280,8 @@ class IRGenerator:
         self._env_by_namespace = {}
         # Used to check for circular references.
         self._resolution_in_progress = set()  # Set[DataType]
+        # Aliases whose target is being resolved, outermost first.
+        self._aliases_in_progress = []  # List[Alias]
 
         self._item_by_canonical_name = {}
 
@@ -757,11 +759,7 @@ class IRGenerator:
             env = self._get_or_create_env(namespace.name)
 
             for alias in namespace.aliases:
-                data_type = self._resolve_type(env, alias._ast_node.type_ref)
-                alias.set_attributes(alias._ast_node.doc, data_type)
-                annotations = [self._resolve_annotation_type(env, annotation)
-                               for annotation in alias._ast_node.annotations]
-                alias.set_annotations(annotations)
+                self._populate_alias_attributes(env, alias)
 
             for data_type in namespace.data_types:
                 if not data_type._is_forward_ref:
@@ -778,6 +776,30 @@ class IRGenerator:
                 self._resolution_in_progress.remove(data_type)
 
         assert len(self._resolution_in_progress) == 0
+
+    def _populate_alias_attributes(self, env, alias):
+        """
+        Resolves the target of an alias. An alias that is referenced before its
+        turn (by an alias or a type defined earlier, or from a namespace that is
+        populated earlier) is resolved on demand by _resolve_type(), so that
+        checks that look through aliases always see the aliased type.
+        """
+        if alias.data_type is not None:
+            return
+        if alias in self._aliases_in_progress:
+            # Only alias definitions are followed on demand, so this is a
+            # cycle of aliases; the alias being resolved closes it.
+            closing = self._aliases_in_progress[-1]
+            raise InvalidSpec(
+                "Alias '%s' is part of a cycle." % closing.name,
+                closing._ast_node.lineno, closing._ast_node.path)
+        self._aliases_in_progress.append(alias)
+        data_type = self._resolve_type(env, alias._ast_node.type_ref)
+        alias.set_attributes(alias._ast_node.doc, data_type)
+        annotations = [self._resolve_annotation_type(env, annotation)
+                       for annotation in alias._ast_node.annotations]
+        alias.set_annotations(annotations)
+        self._aliases_in_progress.pop()
 
     def _populate_struct_type_attributes(self, env, data_type):
         """
@@ -1279,6 +1301,8 @@ class IRGenerator:
                               *loc)
         else:
             data_type = env[type_ref.name]
+            if isinstance(data_type, Alias):
+                self._populate_alias_attributes(env, data_type)
 
         if type_ref.ns:
             # Add the source namespace as an import.
